@@ -36,6 +36,8 @@ func main() {
 		cmdReplay(os.Args[2:])
 	case "selftest":
 		cmdSelftest(os.Args[2:])
+	case "sweep":
+		cmdSweep(os.Args[2:])
 	default:
 		usage()
 	}
@@ -145,3 +147,36 @@ func cmdVerify(args []string) {
 }
 
 func cmdReplay(args []string)   { fmt.Println("not implemented yet"); os.Exit(2) }
+
+// cmdSweep: zero-annotation safety sweep — verify functions WITHOUT contracts
+// against the empty contract (no panics for arbitrary well-typed inputs) and
+// list what fails. Exploration aid for writing thin safety contracts.
+func cmdSweep(args []string) {
+	fs := flag.NewFlagSet("sweep", flag.ExitOnError)
+	repo := fs.String("repo", "/repo", "repository")
+	spec := fs.String("spec", "/verif/spec", "spec library")
+	timeout := fs.Int("timeout", 3, "solver timeout")
+	fs.Parse(args)
+	re := regexp.MustCompile(fs.Arg(0))
+	w := load(*repo, *spec)
+	var obls []*vc.Obligation
+	for _, fn := range w.AllModuleFuncs() {
+		if !re.MatchString(vc.FnDisplay(fn)) || w.ContractOf(fn) != nil {
+			continue
+		}
+		v := w.VerifyFunc(fn)
+		for _, e := range v.Errors {
+			fmt.Println("ERROR:", e)
+		}
+		obls = append(obls, v.Obls...)
+	}
+	res := vc.Solve(obls, vc.SolverCfg{TimeoutSec: *timeout})
+	n := 0
+	for _, r := range res {
+		if r.Status != vc.Proved {
+			n++
+			fmt.Printf("%-10s %-70s %s\n", r.Status, r.O.Name, r.O.Info)
+		}
+	}
+	fmt.Printf("%d obligations, %d not proved\n", len(res), n)
+}
